@@ -1,5 +1,4 @@
 PROP = dict(
-    unclaimed=True,
     module="M3d.Props.C08",
     corr=dict(quick=1000, thorough=4000),
     thorough_seeds=6,
